@@ -36,12 +36,14 @@ CAP = {'quick': 300.0, 'thorough': 2400.0}
 
 T = ['w', '\n\n', '\n  ', '\n    ', 'L{', '}', 'B{', 'C{', 'U{', 'E{', '@param a:', '@type a:', '@foo', ':param a:', ':type a:', '- ', '1. ', '::', '>>> ', '`', '``',
      '*', '|', '_', '<a&"', 'Args:', 'Returns\n-------', '.. note::', '.. code::', '\x00', '\x0b', '\udc80', '\uffff', '\\', '=====', '\xa0', '\r', '@ivar v:']
-T16 = ['w', '\n\n', '\n  ', 'L{', '}', 'C{', '@param a:', ':param a:', '- ', '::', '>>> ', '`', '``', '*', '.. note::', '=====']
+T16 = ['w', '\n\n', '\n  ', 'L{', '}', 'C{', '@param a:', ':param a:', '- ', '::', '>>> ', '`', '``', '*', '.. note::', '=====', '@foo ', '\xa0']
 FMTS = ['epytext', 'restructuredtext', 'google', 'numpy', 'plaintext']
-KINDS = ['module', 'class', 'function', 'attribute', 'property']
+KINDS = ['module', 'class', 'function', 'attribute', 'property', 'inherited']
 SRC = ('"""placeholder"""\nclass K:\n    "placeholder"\n    @property\n    def p(self):\n        "placeholder"\n    attr = 1\n    "placeholder"\n'
+       '    def meth(self, a):\n        "placeholder"\nclass Sub(K):\n    def meth(self, a):\n        pass\n'
        'def f(a):\n    "placeholder"\ndef g():\n    "A good docstring with a paragraph.\\n\\nAnd another one."\n')
-OBJ = {'module': 'm', 'class': 'm.K', 'function': 'm.f', 'attribute': 'm.K.attr', 'property': 'm.K.p'}
+OBJ = {'module': 'm', 'class': 'm.K', 'function': 'm.f', 'attribute': 'm.K.attr', 'property': 'm.K.p', 'inherited': 'm.K.meth'}
+SHOWN = {'inherited': 'm.Sub.meth'}      # the docstring is defined on OBJ[kind] and displayed on SHOWN[kind]
 
 
 def mk(fmt: str, pt: bool) -> Any:
@@ -88,6 +90,8 @@ def gave_up(s: Any, obj: Any, fmt: str, doc: str) -> Tuple[bool, bool, str]:
         parsed = parser(doc, errs)
     except Exception as e:  # noqa
         return True, True, f'parser:{type(e).__name__}'
+    if fmt == 'epytext' and any(e.is_fatal() for e in errs):
+        return True, True, 'parser:fatal-error'        # "any fatal epytext markup error"
     try:
         parsed.to_stan(obj.docstring_linker)
     except Exception as e:  # noqa
@@ -106,8 +110,15 @@ def judge_doc(s: Any, fmt: str, pt: bool, kind: str, doc: str, control: str, res
     res['evals'] += 1
     install(s, obj, doc)
     cleaned = obj.docstring
+    shown = s.allobjects[SHOWN.get(kind, OBJ[kind])]
+    if shown is not obj:
+        shown.parsed_docstring = None
+        shown.parsed_summary = None
+        shown._linker = None
+        for sec in list(s.parse_errors):
+            s.parse_errors[sec].discard(shown.fullName())
     try:
-        hb, tb, hs, ht = render_all(obj)
+        hb, tb, hs, ht = render_all(shown)
     except core.JobTimeout:
         res['violations'].append(core.violation(f'hang/{fmt}', f'rendering {doc!r} as {fmt} on a {kind} does not terminate within the time limit', case))
         return
